@@ -29,8 +29,8 @@ CHECKS.update({
  "C08": ("fault_enumeration", "runtime monitor: open() on in-place-damaged WAL images, recovered records checked for membership in the set of everything ever appended",
          "Hundreds of damage sets per history (bit flips, garbage, zero-fill, block/multi-block garbage, stale chunk copies, aimed at crc/len/type/payload/block edges) are applied to the final image; on Ok every recovered record must be the (queue, position, payload) of some append and positions per queue strictly increase.",
          "Payloads are self-identifying (PRNG stream keyed by op/index/len), compared by 64-bit hash; CRC-32 collisions are classified inconclusive only if a checksum-valid altered frame exists in the damaged image.", "4/C08", "driver+iotrace"),
- "C09": ("fault_enumeration", "runtime monitor: every frame of the final WAL image x 4 payload/checksum alterations, retained records not written by the hit call must survive intact",
-         "Frames are attributed to API calls through the syscall trace (call windows under Always(Flush)); for each frame and alteration open() must succeed and every retained record whose writing call is not the damaged frame's call must be recovered byte for byte. Exhaustive over frames per history (sampled above a cap in quick).",
+ "C09": ("fault_enumeration", "runtime monitor: every frame of the final WAL image x 4 payload/checksum alterations, retained records not written by the hit call must survive intact and reach a consumer resuming next to the hole",
+         "Frames are attributed to API calls through the syscall trace (call windows under Always(Flush)); for each frame and alteration open() must succeed and every retained record whose writing call is not the damaged frame's call must be recovered byte for byte, through range(..) and through bounded resuming reads on both sides of every hole. Exhaustive over frames per history (sampled above a cap in quick).",
          "Layout parser only aims the damage and self-validates per image; verdict comes from the read API.", "4/C09", "driver+iotrace"),
  "C10": ("fault_enumeration", "runtime monitor: open() + all read accessors on hostile directory contents in forked sacrificial children under logical syscall budget, CPU limit and allocation cap; release and overflow-checking builds",
          "Four generators (structural damage, in-place damage, CRC-valid crafted entries/frames, random blocks) x 100 images per base history; panic / abort / budget exhaustion / CPU limit / allocation cap are violations; two dev-profile-only overflow panics are listed as known findings.",
